@@ -365,7 +365,15 @@ def rule_cachekey(ctx):
     if good:
         single = [x for x in pj if x.args[0].op == "sub"]
         allsrc = [x for x in pj if x.args[0].op == "param"]
-        good = len(single) == 1 and len(allsrc) == 1 and single[0].args[3].op == "param" and single[0].args[3].a[0] == "Gj" and allsrc[0].args[3].op in ("param",) and allsrc[0].args[3].a[0] == "G"
+        def _cached(a):
+            # `Gj if saveg else None`: the cache, or nothing
+            alts = [x for x in resolve_ite_free(a) if not tm.is_const(x, None)]
+            return alts[0] if len(alts) == 1 else a
+
+        good = len(single) == 1 and len(allsrc) == 1
+        if good:
+            cs, ca = _cached(single[0].args[3]), _cached(allsrc[0].args[3])
+            good = cs.op == "param" and cs.a[0] == "Gj" and ca.op == "param" and ca.a[0] == "G"
     yield ob(R, d, "separation._bss_decomp_mtifilt_images:cache-roles", good, "Gj is used with the projection on source j alone, G with the projection on all sources")
     pi = ctx.program.func("separation._project_images", R)
     sp = ctx.S.get(pi.qual)
